@@ -303,7 +303,7 @@ class UGridModel(Model):
             'node_coordinates': 'node_x node_y', 'face_node_connectivity': 'face_nodes',
         }
         data_vars, coords = {}, {}
-        data_vars['face_nodes'] = self._connectivity('face nodes', mesh.faces, mesh.max_nodes, (fd, mx), 'face_node')
+        data_vars['face_nodes'] = self._connectivity('face nodes', mesh.faces, mesh.max_nodes + e.get('extra_width', 0), (fd, mx), 'face_node')
         if e['tables']['face_node']['transposed'] or e['declare_face_dim']:
             mesh_attrs['face_dimension'] = fd
         sup = e['supplied']
@@ -312,13 +312,16 @@ class UGridModel(Model):
             data_vars['edge_nodes'] = self._connectivity('edge nodes', rows, 2, (ed, e.get('two_dim', 'Two')), 'edge_node')
             mesh_attrs['edge_node_connectivity'] = 'edge_nodes'
         if 'face_edge' in sup:
-            data_vars['face_edges'] = self._connectivity('face edges', self.s_face_edges, mesh.max_nodes, (fd, mx), 'face_edge')
+            data_vars['face_edges'] = self._connectivity('face edges', self.s_face_edges, mesh.max_nodes + e.get('extra_width', 0), (fd, mx), 'face_edge')
             mesh_attrs['face_edge_connectivity'] = 'face_edges'
         if 'edge_face' in sup:
-            data_vars['edge_faces'] = self._connectivity('edge faces', self.s_edge_faces, 2, (ed, e.get('two_dim', 'Two')), 'edge_face')
+            first = e.get('ef_fill_first') or [False] * len(self.s_edge_faces)
+            # a boundary edge has one face; which of the two slots stays empty is not prescribed (left / right layouts)
+            ef_rows = [[-1] + list(fs) if len(fs) == 1 and flag else list(fs) for fs, flag in zip(self.s_edge_faces, first)]
+            data_vars['edge_faces'] = self._connectivity('edge faces', ef_rows, 2, (ed, e.get('two_dim', 'Two')), 'edge_face')
             mesh_attrs['edge_face_connectivity'] = 'edge_faces'
         if 'face_face' in sup:
-            data_vars['face_faces'] = self._connectivity('face faces', self.s_face_faces, mesh.max_nodes, (fd, mx), 'face_face')
+            data_vars['face_faces'] = self._connectivity('face faces', self.s_face_faces, mesh.max_nodes + e.get('extra_width', 0), (fd, mx), 'face_face')
             mesh_attrs['face_face_connectivity'] = 'face_faces'
         if e['declare_edge_dim']:
             mesh_attrs['edge_dimension'] = ed
@@ -411,6 +414,10 @@ def make_ugrid(rng, *, mesh=None, winding=None, supplied=None, start_index=None,
         edge_flip=[bool(chance(rng, 0.5)) for _ in range(mesh.nedge)],
         # UGRID does not name the dimension of length two of the edge tables: 'Two' is only customary
         two_dim=pick(rng, ['Two', 'Two', 'Two', 'two', 'nv2', 'n_bnd']),
+        ef_fill_first=[bool(chance(rng, 0.3)) for _ in range(mesh.nedge)],
+        # the per-face tables may be wider than the largest face needs (a file format with room for pentagons that holds
+        # triangles and quadrilaterals only): one more, entirely empty, column
+        extra_width=int(chance(rng, 0.2)),
     )
     m.kinds = {'face': Kind('face', (names[1],), (mesh.nface,)), 'node': Kind('node', (names[0],), (mesh.nnode,))}
     if has_edges:
